@@ -1087,3 +1087,270 @@ Proof.
     rewrite Ex. rewrite orb_true_r. reflexivity.
   - unfold child_urgent. rewrite Ch. apply orb_true_r.
 Qed.
+
+
+(* ---------------------------------------------------------------------------------------------- *)
+(* per-flow FIFO, exactly once *)
+
+Theorem run_flow_fifo c acts s tr f :
+  0 < rate c -> mq_run c (mq0 c) acts = Some (s, tr) ->
+  exists rest, filter (is_flow f) (tr_puts tr) = filter (is_flow f) (tr_fwds tr) ++ rest.
+Proof. intros R H. exists (held_flow s f). apply (run_conserves c acts s tr R H). Qed.
+
+Lemma Q_eq_dec (a b : Q) : {a = b} + {a <> b}.
+Proof. decide equality; [apply Pos.eq_dec|apply Z.eq_dec]. Qed.
+Lemma pkt_eq_dec (a b : pkt) : {a = b} + {a <> b}.
+Proof. decide equality; auto using Q_eq_dec, Z.eq_dec, Nat.eq_dec. Qed.
+
+Lemma count_filter_flow p l :
+  count_occ pkt_eq_dec (filter (is_flow (flow p)) l) p = count_occ pkt_eq_dec l p.
+Proof.
+  induction l as [|x t IH]; cbn; [reflexivity|].
+  destruct (pkt_eq_dec x p) as [->|N].
+  - unfold is_flow at 1. rewrite Z.eqb_refl. cbn. destruct (pkt_eq_dec p p); [|contradiction]. rewrite IH. reflexivity.
+  - destruct (is_flow (flow p) x); [cbn; destruct (pkt_eq_dec x p); [contradiction|]|]; exact IH.
+Qed.
+
+(* every packet handed in is accounted for exactly once: forwarded or held (in the queue of its own flow) *)
+Theorem run_exactly_once c acts s tr p :
+  0 < rate c -> mq_run c (mq0 c) acts = Some (s, tr) ->
+  count_occ pkt_eq_dec (tr_puts tr) p
+  = (count_occ pkt_eq_dec (tr_fwds tr) p + count_occ pkt_eq_dec (held_flow s (flow p)) p)%nat.
+Proof.
+  intros R H. destruct (run_conserves c acts s tr R H) as [Hc _].
+  rewrite <- (count_filter_flow p (tr_puts tr)), <- (count_filter_flow p (tr_fwds tr)), (Hc (flow p)), count_occ_app.
+  reflexivity.
+Qed.
+
+(* ---------------------------------------------------------------------------------------------- *)
+(* what the Monitor samples *)
+
+(* packets of f held but not (yet) in transmission *)
+Definition waiting_flow (s : mq) (f : Z) : list pkt :=
+  filter (is_flow f) (match mchild s with CInit p => [p] | _ => [] end) ++ map snd (sq_held (mstores s f)).
+
+Theorem monitor_samples c s incl f :
+  0 < rate c -> reachable c s ->
+  sample_of s incl f =
+    let l := if incl then held_flow s f else waiting_flow s f in (f, Z.of_nat (length l), sumsz l).
+Proof.
+  intros R Rs. destruct (reachable_inv c s R Rs) as (ins & outs & [C Sh]).
+  unfold sample_of. rewrite (i_cur _ _ _ _ C), (i_qc _ _ _ _ C f), (i_qb _ _ _ _ C f).
+  unfold held_flow, waiting_flow, child_pkts.
+  destruct (mchild s) as [|p|p dl|]; destruct incl; cbn [negb andb]; try reflexivity.
+  unfold is_flow. cbn [filter]. destruct (flow p =? f)%Z; [|reflexivity].
+  cbn [app length sumsz]. f_equal; [f_equal|]; lia.
+Qed.
+
+(* ---------------------------------------------------------------------------------------------- *)
+(* the visiting order of run(): cyclic in declaration order, allowance per visit *)
+
+Definition visits_of (o : list sout) : list (Z * bool) :=
+  flat_map (fun x => match x with OVisit f b => [(f, b)] | _ => [] end) o.
+Definition tr_visits (tr : list tev) : list (Z * bool) := flat_map (fun e => visits_of (snd e)) tr.
+
+Fixpoint drop0 (l : list (Z * nat)) : list (Z * nat) :=
+  match l with (_, O) :: t => drop0 t | _ => l end.
+(* the slot the loop looks at next: exhausted slots are passed over, after the last slot the pass starts again *)
+Definition norm (pass rem : list (Z * nat)) : list (Z * nat) :=
+  match drop0 rem with [] => drop0 pass | l => l end.
+
+(* the specification of cyclic visiting: a visit is always to the class of the next slot; a visit that takes a
+   packet uses up one unit of the slot's allowance, a visit that finds the class empty ends the slot *)
+Fixpoint walk (pass rem : list (Z * nat)) (vs : list (Z * bool)) : option (list (Z * nat)) :=
+  match vs with
+  | [] => Some rem
+  | (f, b) :: r =>
+      match norm pass rem with
+      | (g, S n) :: t => if Z.eqb f g then walk pass (if b then (g, n) :: t else t) r else None
+      | _ => None
+      end
+  end.
+
+Lemma walk_app pass vs1 : forall rem vs2 k,
+  walk pass rem vs1 = Some k -> walk pass rem (vs1 ++ vs2) = walk pass k vs2.
+Proof.
+  induction vs1 as [|[f b] r IH]; intros rem vs2 k H; cbn in *.
+  - injection H as <-. reflexivity.
+  - destruct (norm pass rem) as [|[g [|n]] t]; try discriminate. destruct (f =? g)%Z; [|discriminate]. eauto.
+Qed.
+
+Lemma drop0_idem l : drop0 (drop0 l) = drop0 l.
+Proof. induction l as [|[f [|n]] t IH]; cbn; auto. Qed.
+
+Lemma drop0_head l : match drop0 l with (_, O) :: _ => False | _ => True end.
+Proof. induction l as [|[f [|n]] t IH]; cbn; auto. Qed.
+
+Lemma visits_of_app a b : visits_of (a ++ b) = visits_of a ++ visits_of b.
+Proof. unfold visits_of. apply flat_map_app. Qed.
+
+(* a scan over rem, started with the cursor at k (same next slot), walks to the cursor it leaves *)
+Lemma scan_walk pass test rem : forall vs r k,
+  scan test rem = (vs, r) ->
+  (drop0 rem <> [] -> norm pass k = drop0 rem) -> (drop0 rem = [] -> drop0 k = []) ->
+  exists k', walk pass k (visits_of vs) = Some k' /\
+             match r with Some (f, rem') => k' = rem' | None => drop0 k' = [] end.
+Proof.
+  induction rem as [|[g m] t IH]; intros vs r k H Hk Hk0; cbn in H.
+  - injection H as <- <-. exists k. split; [reflexivity|]. apply Hk0. reflexivity.
+  - destruct m as [|m].
+    + apply (IH vs r k H); cbn in Hk, Hk0; assumption.
+    + cbn in Hk. destruct (test g) eqn:T.
+      * injection H as <- <-. exists ((g, m) :: t). split; [|reflexivity].
+        cbn. rewrite Hk by discriminate. rewrite Z.eqb_refl. reflexivity.
+      * destruct (scan test t) as [vs' r'] eqn:Sc. injection H as <- <-.
+        destruct (IH vs' r' t eq_refl) as (k' & W & E).
+        { intros NE. unfold norm. destruct (drop0 t); [contradiction|reflexivity]. }
+        { auto. }
+        exists k'. split; [|exact E]. cbn. rewrite Hk by discriminate. rewrite Z.eqb_refl. exact W.
+Qed.
+
+Lemma norm_of_drop0 pass k rem : drop0 k = drop0 rem -> norm pass k = norm pass rem.
+Proof. unfold norm. intros ->. reflexivity. Qed.
+
+(* resume, when the pass is never left early, walks from the cursor to the new cursor *)
+Lemma resume_walk c s rem s' o k :
+  brk c = false -> resume c s rem = Some (s', o) -> norm (pass c) k = norm (pass c) rem ->
+  exists k', walk (pass c) k (visits_of o) = Some k' /\ norm (pass c) k' = norm (pass c) (cursor c s').
+Proof.
+  intros B H Hk. unfold resume in H.
+  assert (Wrap : forall k1 s1 vs1, drop0 k1 = [] -> end_pass c s = Some (s1, vs1) ->
+            exists k', walk (pass c) k1 (visits_of vs1) = Some k' /\ norm (pass c) k' = norm (pass c) (cursor c s1)).
+  { intros k1 s1 vs1 D E. unfold end_pass in E. destruct (mtotal s =? 0)%Z.
+    - destruct (sq_get fifo_pop (mtok s)); [|discriminate]. injection E as <- <-. exists k1. split; [reflexivity|].
+      unfold cursor; cbn. unfold norm. rewrite D. destruct (drop0 (pass c)); reflexivity.
+    - destruct (scan (nonempty c s) (pass c)) as [vs2 r2] eqn:Sc.
+      destruct (scan_walk (pass c) _ _ _ _ k1 Sc) as (k' & W & E').
+      { intros _. unfold norm. rewrite D. reflexivity. }
+      { intros _. exact D. }
+      destruct r2 as [[f rem2]|].
+      + unfold commit, after in E. rewrite B in E. destruct (sq_get fifo_pop (mstores s f)); [|discriminate].
+        injection E as <- <-. exists k'. split; [exact W|]. subst k'. reflexivity.
+      + injection E as <- <-. exists k'. split; [exact W|]. unfold cursor; cbn.
+        unfold norm. rewrite E'. destruct (drop0 (pass c)); reflexivity. }
+  destruct (scan (nonempty c s) rem) as [vs0 r0] eqn:Sc.
+  destruct (drop0 rem) as [|d0 dt] eqn:D.
+  - (* nothing left in this pass *)
+    assert (E0 : vs0 = [] /\ r0 = None).
+    { clear -Sc D. revert vs0 r0 Sc. induction rem as [|[g [|m]] t IH]; intros vs0 r0 Sc; cbn in *.
+      - injection Sc as <- <-. auto.
+      - auto.
+      - discriminate. }
+    destruct E0 as [-> ->]. destruct (end_pass c s) as [[s1 vs1]|] eqn:E; [|discriminate]. injection H as <- <-. cbn [app].
+    destruct (drop0 k) as [|k0 kt] eqn:Dk.
+    + apply (Wrap k s1 vs1 Dk eq_refl).
+    + (* the cursor k is ahead only by a wrap: it shows the first slot of the pass *)
+      unfold norm in Hk. rewrite Dk, D in Hk.
+      unfold end_pass in E. destruct (mtotal s =? 0)%Z.
+      * destruct (sq_get fifo_pop (mtok s)); [|discriminate]. injection E as <- <-. exists k. split; [reflexivity|].
+        unfold cursor; cbn. unfold norm. rewrite Dk, <- Hk. reflexivity.
+      * destruct (scan (nonempty c s) (pass c)) as [vs2 r2] eqn:Sc2.
+        destruct (scan_walk (pass c) _ _ _ _ k Sc2) as (k' & W & E').
+        { intros _. unfold norm. rewrite Dk. exact Hk. }
+        { intros Dp. rewrite Dp in Hk. discriminate. }
+        destruct r2 as [[f rem2]|].
+        -- unfold commit, after in E. rewrite B in E. destruct (sq_get fifo_pop (mstores s f)); [|discriminate].
+           injection E as <- <-. exists k'. split; [exact W|]. subst k'. reflexivity.
+        -- injection E as <- <-. exists k'. split; [exact W|]. unfold cursor; cbn.
+           unfold norm. rewrite E'. destruct (drop0 (pass c)); reflexivity.
+  - destruct (scan_walk (pass c) _ _ _ _ k Sc) as (k1 & W & E1).
+    { intros _. rewrite Hk. unfold norm. rewrite D. reflexivity. }
+    { intros E. congruence. }
+    destruct r0 as [[f rem0]|].
+    + unfold commit, after in H. rewrite B in H. destruct (sq_get fifo_pop (mstores s f)); [|discriminate].
+      injection H as <- <-. exists k1. split; [exact W|]. subst k1. reflexivity.
+    + destruct (end_pass c s) as [[s1 vs1]|] eqn:E; [|discriminate]. injection H as <- <-.
+      destruct (Wrap k1 s1 vs1 E1 eq_refl) as (k2 & W2 & N2).
+      exists k2. split; [|exact N2]. rewrite visits_of_app. rewrite (walk_app _ _ _ _ _ W). exact W2.
+Qed.
+
+Lemma visits_none o : (forall f b, ~ In (OVisit f b) o) -> visits_of o = [].
+Proof.
+  induction o as [|x t IH]; intros H; [reflexivity|]. unfold visits_of in *. cbn.
+  destruct x; cbn; try (apply IH; intros f0 b0 Hin; apply (H f0 b0); right; exact Hin).
+  exfalso. apply (H f served). left. reflexivity.
+Qed.
+
+Theorem visits_run c : 0 < rate c -> brk c = false -> forall acts s ins outs s' tr k,
+  Inv c ins outs s -> mq_run c s acts = Some (s', tr) -> norm (pass c) k = norm (pass c) (cursor c s) ->
+  exists k', walk (pass c) k (tr_visits tr) = Some k' /\ norm (pass c) k' = norm (pass c) (cursor c s').
+Proof.
+  intros R B. induction acts as [|a rest IH]; intros s ins outs s' tr k Iv H Hk; cbn in H.
+  - injection H as <- <-. exists k. split; [reflexivity|exact Hk].
+  - destruct (mq_act c s a) as [[s1 o]|] eqn:A; [|discriminate].
+    destruct (mq_run c s1 rest) as [[s2 tr']|] eqn:Rn; [|discriminate]. injection H as <- <-.
+    pose proof (inv_step c ins outs s a s1 o R Iv A) as I1.
+    unfold tr_visits. cbn [flat_map snd]. fold (tr_visits tr').
+    assert (St : exists k1, walk (pass c) k (visits_of o) = Some k1 /\ norm (pass c) k1 = norm (pass c) (cursor c s1)).
+    { destruct (runs_loop a) eqn:Ra.
+      - destruct (resume_site c ins outs s a s1 o Iv A Ra) as (s0 & _ & _ & Rsm & _).
+        eapply resume_walk; eauto.
+      - destruct (other_site c s a s1 o A Ra) as (Ec & Nv & _).
+        rewrite (visits_none o Nv). exists k. split; [reflexivity|]. rewrite Ec. exact Hk. }
+    destruct St as (k1 & W1 & N1).
+    destruct (IH s1 _ _ s2 tr' k1 I1 Rn N1) as (k2 & W2 & N2).
+    exists k2. split; [|exact N2]. rewrite (walk_app _ _ _ _ _ W1). exact W2.
+Qed.
+
+(* what a visit means for the queues: a class is skipped only when it holds nothing, a class that is served gives
+   the head of its queue *)
+Lemma resume_visit c ins outs s rem s' o f b :
+  Core c ins outs s -> Mid s -> resume c s rem = Some (s', o) -> In (OVisit f b) o ->
+  if b then exists x rest, items (mstores s f) = x :: rest /\ get (mstores s' f) = GGranted x /\ items (mstores s' f) = rest
+  else items (mstores s f) = [] /\ held_flow s f = [].
+Proof.
+  intros C M H Hin.
+  assert (Tst : forall g, nonempty c s g = negb (nilb (items (mstores s g)))) by (intros; eapply nonempty_spec; eauto).
+  assert (Cm : forall g rem1 s1, nonempty c s g = true -> commit s g rem1 = Some s1 ->
+             exists x rest, items (mstores s g) = x :: rest /\ get (mstores s1 g) = GGranted x /\ items (mstores s1 g) = rest).
+  { intros g rem1 s1 T E. rewrite Tst in T. unfold commit in E.
+    destruct (sq_get fifo_pop (mstores s g)) as [q|] eqn:G; [|discriminate]. injection E as <-.
+    apply fifo_get_inv in G as (_ & _ & [(E0 & _)|(x & E1 & Gx)]); [rewrite E0 in T; discriminate|].
+    exists x, (items q). cbn. rewrite upd_same. auto. }
+  assert (Sk : forall g, nonempty c s g = false -> items (mstores s g) = [] /\ held_flow s g = []).
+  { intros g T. rewrite Tst in T. assert (E : items (mstores s g) = []) by (destruct (items (mstores s g)); [reflexivity|discriminate]).
+    split; [exact E|]. rewrite (mid_held s g M), E. reflexivity. }
+  assert (One : forall rem1 vs r, scan (nonempty c s) rem1 = (vs, r) -> In (OVisit f b) vs ->
+             if b then exists rem', r = Some (f, rem') else nonempty c s f = false).
+  { intros rem1 vs r Sc Hv. destruct b; [eapply scan_visit_true; eauto|eapply scan_visit_false; eauto]. }
+  unfold resume in H. destruct (scan (nonempty c s) rem) as [vs0 r0] eqn:Sc.
+  assert (EP : forall s1 vs1, end_pass c s = Some (s1, vs1) -> In (OVisit f b) vs1 ->
+     if b then exists x rest, items (mstores s f) = x :: rest /\ get (mstores s1 f) = GGranted x /\ items (mstores s1 f) = rest
+     else items (mstores s f) = [] /\ held_flow s f = []).
+  { intros s1 vs1 E Hv. unfold end_pass in E. destruct (mtotal s =? 0)%Z.
+    - destruct (sq_get fifo_pop (mtok s)); [|discriminate]. injection E as <- <-. destruct Hv.
+    - destruct (scan (nonempty c s) (pass c)) as [vs2 r2] eqn:Sc2. pose proof (One _ _ _ Sc2) as O2.
+      destruct r2 as [[g rem2]|].
+      + destruct (commit s g (after c rem2)) as [s2|] eqn:Cg; [|discriminate]. injection E as <- <-.
+        specialize (O2 Hv). destruct b; [|apply Sk; exact O2].
+        destruct O2 as (rem' & Er). injection Er as -> _. apply (Cm f _ _ (proj1 (scan_some _ _ _ _ _ Sc2)) Cg).
+      + injection E as <- <-. specialize (O2 Hv). destruct b; [destruct O2; discriminate|apply Sk; exact O2]. }
+  pose proof (One _ _ _ Sc) as O1.
+  destruct r0 as [[g rem0]|].
+  - destruct (commit s g (after c rem0)) as [s1|] eqn:Cg; [|discriminate]. injection H as <- <-.
+    specialize (O1 Hin). destruct b; [|apply Sk; exact O1].
+    destruct O1 as (rem' & Er). injection Er as -> _. apply (Cm f _ _ (proj1 (scan_some _ _ _ _ _ Sc)) Cg).
+  - destruct (end_pass c s) as [[s1 vs1]|] eqn:E; [|discriminate]. injection H as <- <-.
+    apply in_app_or in Hin as [Hin|Hin].
+    + specialize (O1 Hin). destruct b; [destruct O1; discriminate|apply Sk; exact O1].
+    + eapply EP; eauto.
+Qed.
+
+Theorem visit_meaning c s a s' o f b :
+  0 < rate c -> reachable c s -> mq_act c s a = Some (s', o) -> In (OVisit f b) o ->
+  if b then exists x rest, items (mstores s f) = x :: rest /\ get (mstores s' f) = GGranted x /\ items (mstores s' f) = rest
+  else items (mstores s f) = [] /\ held_flow s f = [].
+Proof.
+  intros R Rs A Hin. destruct (reachable_inv c s R Rs) as (ins & outs & Iv).
+  destruct (runs_loop a) eqn:Ra; [|exfalso; eapply (other_site c s a s' o A Ra); exact Hin].
+  destruct (resume_site c ins outs s a s' o Iv A Ra) as (s0 & C0 & M0 & Rsm & Est & _).
+  pose proof (resume_visit c ins outs s0 _ s' o f b C0 M0 Rsm Hin) as V. rewrite Est in V.
+  destruct b; [exact V|]. destruct V as [V1 V2]. split; [exact V1|].
+  (* held_flow of s: the child of s has ended or does not exist, its stores are those of s0 *)
+  destruct Iv as [C Sh]. rewrite <- V2. unfold held_flow. rewrite Est. f_equal.
+  unfold child_pkts. rewrite (m_child _ M0).
+  destruct a as [p| |[g|]|[g|]| | | |t|incl]; try discriminate; cbn in A.
+  - destruct (mpc s) eqn:P; try discriminate. pose proof (i_child _ Sh) as Hc. rewrite P in Hc. rewrite Hc. reflexivity.
+  - destruct (mpc s) eqn:P; try discriminate. pose proof (i_child _ Sh) as Hc. rewrite P in Hc. rewrite Hc. reflexivity.
+  - destruct (mchild s); try discriminate. reflexivity.
+Qed.
